@@ -8,6 +8,9 @@ mod codec;
 mod core;
 mod props;
 mod encspace;
+mod bfs;
+mod corpus;
+mod readers;
 
 use crate::core::{Acc, Ctx};
 use serde_json::{json, Value};
